@@ -68,7 +68,9 @@ func genScenario(t *rapid.T) scenario {
 	default:
 		s.Sev, s.Tdx = true, true
 	}
-	s.Vmsas = rapid.SampledFrom([]uint32{0, 0, 1, 2, 8}).Draw(t, "vmsas")
+	// 0 = all counts; counts GCE sells (1, 2, 8, 240) and counts it does not (3, 12, 300): a request
+	// names any count, the document and the report are keyed by what was requested
+	s.Vmsas = rapid.SampledFrom([]uint32{0, 0, 0, 1, 2, 8, 3, 12, 240, 300}).Draw(t, "vmsas")
 	s.Genoa = rapid.Bool().Draw(t, "genoa")
 	s.Shapes = rapid.SliceOfNDistinct(rapid.SampledFrom(shapePool), 0, 2, rapid.ID[string]).Draw(t, "shapes")
 	s.Early = rapid.Bool().Draw(t, "early")
